@@ -15,6 +15,7 @@ import I18n.Driver.Po
 import I18n.Driver.Deb
 import I18n.Driver.PyBrace
 import I18n.Driver.Pipeline
+import I18n.Driver.Cli
 /- Line-protocol driver: `<model> <op> <args…>` per line on stdin, one canonical line per op on stdout. -/
 open I18n.Driver
 
@@ -38,6 +39,7 @@ def step (line : String) : String :=
   | "pybrace" :: op :: args => PyBrace.handle op args
   | "perlbrace" :: op :: args => PyBrace.handlePerl op args
   | "pipeline" :: op :: args => Pipeline.handle op args
+  | "cli" :: op :: args => Cli.handle op args
   | _ => "bad-op"
 
 partial def loop (h : IO.FS.Stream) (out : IO.FS.Stream) : IO Unit := do
